@@ -99,7 +99,7 @@ enum Op {
 }
 
 #[derive(Clone, Copy, Debug, PartialEq, Eq)]
-enum Query {
+pub enum Query {
     Graph,
     Analyze,
     Reports,
@@ -110,7 +110,7 @@ enum Query {
     RootType,
 }
 
-const QUERIES: [Query; 8] = [Query::Graph, Query::Analyze, Query::Reports, Query::Coverage, Query::Run, Query::EvictThenRun, Query::SnapshotAnalyze, Query::RootType];
+pub const QUERIES: [Query; 8] = [Query::Graph, Query::Analyze, Query::Reports, Query::Coverage, Query::Run, Query::EvictThenRun, Query::SnapshotAnalyze, Query::RootType];
 
 fn describe(op: &Op) -> String {
     match op {
@@ -151,7 +151,15 @@ fn mask(s: &str) -> String {
 fn answer(session: &CompilerSession, dir: &Path, query: Query, root: usize) -> String {
     let root_path = dir.join(FILES[root]);
     let other_path = dir.join(if FILES[root] == "other.zy" { "root.zy" } else { "other.zy" });
-    let result = catch(|| match query {
+    match catch(|| raw_answer(session, &root_path, &other_path, query)) {
+        | Ok(s) => s,
+        | Err(p) => format!("PANIC {}", p.short()),
+    }
+}
+
+/// The normalised answer of one query; panics (including salsa cancellation) propagate to the caller.
+pub fn raw_answer(session: &CompilerSession, root_path: &Path, other_path: &Path, query: Query) -> String {
+    let result: String = (|| match query {
         | Query::Graph => match session.graph(&root_path) {
             | Ok(graph) => {
                 let mut s = String::new();
@@ -214,11 +222,8 @@ fn answer(session: &CompilerSession, dir: &Path, query: Query, root: usize) -> S
             },
             | Err(e) => format!("error: {e}"),
         },
-    });
-    match result {
-        | Ok(s) => mask(&s),
-        | Err(p) => format!("PANIC {}", p.short()),
-    }
+    })();
+    mask(&result)
 }
 
 struct World {
